@@ -12,8 +12,8 @@ TOL = 1e-7
 RULE = (
     "configuration product: 2 regions (one asymmetric, 2x3 pixels per unit) x pixel size {1, 0.5} x 19 "
     "kernels (Gaussian: scalar variance, isotropic matrix, axis-aligned, correlated with r in {0.2,-0.5, "
-    "0.74,0.76,-0.9,0.93,-0.95,0.99}; uniform box x2; a user kernel) x 5 weights (persistence n=1,2; "
-    "linear_ramp x2; a user weight) x skew on/off; diagrams: each of 16 points (inside, on a pixel "
+    "0.74,0.76,-0.9,0.93,-0.95,0.99}; uniform box x2; a user kernel) x 7 weights (persistence n=1,2; "
+    "linear_ramp x2; a user weight; two user weights that return one of their argument arrays) x skew on/off; diagrams: each of 16 points (inside, on a pixel "
     "border, on the region corner, outside, on the diagonal, negative birth, ...) alone and 6 pairs; plus diagrams of 300 and 1100 points on the coarse grid (chunked evaluation paths). "
     "Oracle per pixel: weight x mass of the kernel over the pixel's square by 1-D quadrature of the "
     "conditional law / erf products / exact box overlap; pixel squares from the public ranges and "
@@ -34,7 +34,10 @@ KERNELS = ([("gauss_scalar", 0.3), ("gauss_iso", 0.5), ("gauss_diag", 0.2, 0.8),
            + [("gauss_corr", 0.5, 0.2, r) for r in CORR]
            + [("uniform", 1.0, 1.0), ("uniform", 0.6, 1.7), ("user", 0.5)])
 WEIGHTS = [("persistence", 1.0), ("persistence", 2.0), ("linear_ramp", 0.0, 1.0, 0.0, 1.0),
-           ("linear_ramp", 0.5, 2.0, 0.5, 1.5), ("user", 2.0)]
+           ("linear_ramp", 0.5, 2.0, 0.5, 1.5), ("user", 2.0),
+           # user weights that RETURN THEIR ARGUMENT (no new array): the weights then share memory with whatever the
+           # imager passed in, and must still be the values at the time of the call
+           ("user_view", "p"), ("user_view", "b")]
 POINTS = [[0.7, 1.9], [1.0, 2.0], [0.0, 2.0], [3.0, 3.5], [-2.0, 5.0], [0.5, 0.5], [-0.5, 0.25],
           [1.5, 1.75], [0.25, 2.25], [1.99, 3.0], [0.5, 1.0], [-1.0, 2.0],
           # just outside the imaged region (by about one narrow-kernel standard deviation)
@@ -48,6 +51,14 @@ def bounds(tier):
 
 def user_weight(b, p, k=2.0):
     return k * np.abs(b) + p
+
+
+def user_view_p(b, p):
+    return p
+
+
+def user_view_b(b, p):
+    return b
 
 
 def user_kernel(x, y, mu=None, w=0.5):
@@ -80,6 +91,9 @@ def imager_kwargs(kernel, weight):
     elif weight[0] == "linear_ramp":
         kw["weight"] = "linear_ramp"
         kw["weight_params"] = {"low": weight[1], "high": weight[2], "start": weight[3], "end": weight[4]}
+    elif weight[0] == "user_view":
+        kw["weight"] = user_view_p if weight[1] == "p" else user_view_b
+        kw["weight_params"] = {}
     else:
         kw["weight"] = user_weight
         kw["weight_params"] = {"k": weight[1]}
